@@ -21,7 +21,7 @@ pub struct C07 {
 
 impl C07 {
     /// Grammar, size, source identity, Feed content of every datagram of the call.
-    pub fn on(&mut self, rec: &CallRec, ch: &Chain, acc: &mut Acc) -> Verdict {
+    pub fn on(&mut self, rec: &CallRec, ch: &Chain, fo: Option<&FoldOut>, acc: &mut Acc) -> Verdict {
         let mps = rec.cfg_pre.mps;
         for (i, ev) in rec.evs.iter().enumerate() {
             let Ev::Send { to, data } = ev else { continue };
@@ -36,6 +36,19 @@ impl C07 {
             acc.tally(&format!("datagram/{}", kind_name(&p.header.message)), 1);
             ensure!(p.header.src == ch.at[i], "C07/src-not-current-identity", "src {:?} but identity at send time {:?}", p.header.src, ch.at[i]);
             ensure!(p.header.dst == *to, "C07/dst-mismatch", "header dst {:?} but handed over for {to:?}", p.header.dst);
+            // ... and the sender's incarnation: one of the values the suspicions presented so far explain
+            if let Some(fo) = fo {
+                if let Some(j) = fo.fold.ids.iter().position(|x| *x == ch.at[i]) {
+                    ensure!(
+                        fo.fold.incs[j].contains(&p.header.src_incarnation),
+                        "C07/src-incarnation",
+                        "header carries incarnation {} for {:?}; the sender's incarnation can only be one of {:?}",
+                        p.header.src_incarnation,
+                        ch.at[i],
+                        fo.fold.incs[j]
+                    );
+                }
+            }
             if wire::piggybacks(&p.header.message) && p.members.is_none() {
                 ensure!(
                     p.items.is_empty(),
